@@ -70,7 +70,7 @@ claim("C18", "DESIGN.md 6 C18",
       "Translator route: on every run the field structure of every struct/enum of the crate (259 types, macro-generated tuple variants included) and the auto-trait impls "
       "rustc synthesized for them are translated from nightly rustdoc JSON of the current tree into a generated Coq table; theorem C18_send_sync_preserved proves over that "
       "table, for every type and both traits, that rustc's impl is positive, that the predicate set the Coq rule table computes from the fields equals rustc's where-clauses, and "
-      "that it consists only of 'child (or child output) is Send/Sync'. Type parameters are opaque atoms, so every instantiation is covered. The futures of the async-fn drivers "
+      "that it consists only of 'child (or child output) is Send/Sync'; hand-written `unsafe impl Send/Sync` or negative impls are read like synthesized ones, and C18_every_type_decided proves that no type of the crate lacks an entry. Type parameters are opaque atoms, so every instantiation is covered. The futures of the async-fn drivers "
       "(for_each / try_for_each / collect) have no fields and are covered by concrete Send probes compiled against the current tree. The Coq content is a finite evaluation per "
       "type; the depth is in the exact comparison with rustc.",
       "translator (rustdoc JSON of the current tree -> generated Coq table) + Coq evaluation proof over the table, compared with rustc's synthesized auto-trait impls; rustc probes for the async fns")
